@@ -2,7 +2,7 @@
 from .common import combined
 LEVEL = 'other'
 RULES = ('R02.i', 'R02.a', 'R02.b', 'R02.c', 'R02.d', 'R02.f', 'R01.a', 'R01.c', 'R01.g', 'R01.h', 'R08.b', 'R13.b', 'R18.c', 'R06.b',
-         'R10.s', 'R10.c', 'R10.d', 'R10.i', 'R09.a', 'R09.k', 'R09.e', 'R09.d', 'R09.t', 'R07.d', 'R07.e', 'R07.t', 'R06.a', 'R06.c', 'R08.a', 'R02.g', 'R12.g', 'R01.j', 'R02.h')
+         'R10.s', 'R10.c', 'R10.d', 'R10.i', 'R09.a', 'R09.k', 'R09.e', 'R09.d', 'R09.t', 'R07.d', 'R07.e', 'R07.t', 'R06.a', 'R06.c', 'R08.a', 'R02.g', 'R12.g', 'R01.j', 'R02.h', 'R08.f', 'R02.r')
 
 
 def run(prog, rec, tier):
@@ -10,7 +10,7 @@ def run(prog, rec, tier):
     C = cli_rules.CliRules(prog, rec)
     C.parser()
     C.interactive()
-    combined(prog, rec, tier, RULES, driver=('layout', 'reader'), pipe=True, spawn=True, modes=('steps', 'counter'), hash=('drivers', 'finaliser'), compress=True, hmac=('structure',),
+    combined(prog, rec, tier, RULES, driver=('layout', 'reader'), pipe=True, spawn=True, modes=('steps', 'counter'), hash=('drivers', 'finaliser', 'factory'), compress=True, hmac=('structure',),
              aes=('tables', 'key_schedule', ('block', 'enc'), ('block', 'dec'), 'key_load'),
              explanation='The ordered list of stream accesses of execute_encrypt, computed per thread count by abstract interpretation '
              'from a runcrypt object built by its own constructor, is compared byte offset by byte offset with the documented layout '
